@@ -186,7 +186,7 @@ pub fn spec(property: &str, tier: &str) -> Option<CheckSpec> {
 				if quick { 16 } else { 64 },
 				"case = one generated chain; run = one seeded interleaving of submissions (valid, dependent on pooled outputs, conflicting with pooled inputs, duplicates, aggregates of pooled transactions, under-fee, immature / just-mature coinbase spends, future / next-block lock heights, non-existent inputs; stem and fluff), blocks mined from prepare_mineable_transactions, blocks with arbitrary pool subsets and conflicting spends, empty blocks, reorgs of depth 1-3 by a competing branch with its own spends, and capacity shrinks forcing eviction; after EVERY operation: no two pooled transactions share an input, every entry validates standalone, pays shifted_fee >= weight*accept_fee_base and is within the weight limit, aggregate(txpool) and aggregate(txpool+stempool) validate, pass Chain::validate_tx and balance against the head's block sums, the mineable set aggregates and applies; blocks built from the mineable set must assemble within the weight limit and be accepted by the chain; clear-cut submissions must be accepted/refused as the rule model says (C13 pool clause: maturity and lock height at -1/0)",
 				vec!["a block connection is atomic for the oracle: process_block plus the adapter's reconcile calls (mirroring ChainToPoolAndNetAdapter::block_accepted)", "reorg-cache ageing is driven by an explicit cutoff (nothing ages out within a run)"],
-				vec!["reorg_reconciled", "dependent_chain_submitted", "conflicting_submitted", "mined_from_pool_nonempty", "block_with_conflicting_spend", "stem_accepted"],
+				vec!["reorg_reconciled", "dependent_chain_submitted", "conflicting_submitted", "mined_from_pool_nonempty", "block_with_conflicting_spend", "stem_accepted", "underfee_submitted_at_capacity"],
 			);
 			sp.real_components = vec![
 				"grin_pool::TransactionPool / Pool (add_to_pool, reconcile, reconcile_block, reorg cache, eviction, bucket_transactions, prepare_mineable_transactions)".into(),
